@@ -7,7 +7,10 @@ src = os.path.join(wt, "_seed", n)
 dst = os.path.join("/verif/seeded", name)
 os.makedirs(dst, exist_ok=True)
 for f in os.listdir(src):
-    shutil.copy(os.path.join(src, f), dst)
+    if os.path.isdir(os.path.join(src, f)):
+        shutil.copytree(os.path.join(src, f), os.path.join(dst, f), dirs_exist_ok=True)
+    else:
+        shutil.copy(os.path.join(src, f), dst)
 m = json.load(open(os.path.join(dst, "meta.json")))
 m["property"] = prop
 m["evaluation"] = dict(
